@@ -178,7 +178,7 @@ def loop_frame(tb_text):
 def universe_size(tier):
     n = len(vsgapi.corpus())
     per = len(elements_for_file("x", tier))
-    return n * per + (200 if tier == "quick" else N_GEN) * 3
+    return n * per + (200 if tier == "quick" else N_GEN) * 4
 
 
 def universe(tier, seed, n_quick, n_thorough, variants=True, gen=True, corpus_filter=None, kinds=None, p_variant=0.5, full=False):
@@ -233,7 +233,7 @@ def universe(tier, seed, n_quick, n_thorough, variants=True, gen=True, corpus_fi
         try:
             from lib import gen_vhdl  # noqa: F401
 
-            pool3 = ["jcl", "all_enabled", "optional_remove"]
+            pool3 = ["jcl", "all_enabled", "optional_remove", "mlc_yes"]
             if full:
                 for g in range(N_GEN if tier != "quick" else 200):
                     for cfg in pool3:
